@@ -150,21 +150,35 @@ def r4_objective(ctx):
     o = ix.func(SC, "ScipyMinimizeAlgorithm.obj_no_jac", "C17.R4")
     co = Canon(o.node)
     loops = [l for l in ast.walk(o.node) if isinstance(l, ast.For)]
-    wrote = unify(co.lines(True, True), ["for ($3.unscaling($1).items(), (?k, ?v))", "$2[?k] = ?v"]) is not None
-    ctx.check(wrote, "C17.R4", o, loops[0] if loops else o.node, "the candidate point is unscaled and written into the per-subject state", "the objective no longer evaluates the state at the (unscaled) candidate point",
+    ol = co.lines(True, True)
+    bw = unify(ol, ["for ($3.unscaling($1).items(), (?k, ?v))", "$2[?k] = ?v"])
+    ctx.check(bw is not None, "C17.R4", o, loops[0] if loops else o.node, "the candidate point is unscaled and written into the per-subject state", "the objective no longer evaluates the state at the (unscaled) candidate point",
               construct="objective writes the point")
-    rets = co.returns()
-    ctx.form("C17.R4", o, o.node, rets[0] if rets else "", {"($2['nll_attach'] + $0.regularity_factor * $2['nll_regul_ind_sum']).item()", "($0.regularity_factor * $2['nll_regul_ind_sum'] + $2['nll_attach']).item()"},
-             ["'nll_attach'", "'nll_regul_ind_sum'"], "objective = nll_attach + regularity_factor * nll_regul_ind_sum",
-             "the objective is no longer the attachment plus the (weighted) individual regularity: the optimiser minimises something else than the posterior", construct="objective value")
+    OBJ = ["$2['nll_attach'] + $0.regularity_factor * $2['nll_regul_ind_sum']", "$0.regularity_factor * $2['nll_regul_ind_sum'] + $2['nll_attach']"]
+    bo = None
+    for ob in OBJ:
+        bo = bo or unify(ol, [f"?o = {ob}", "return ?o.item()"]) or unify(ol, [f"return ({ob}).item()"])
+    os_ = " ".join(ol)
+    if bo is not None:
+        ctx.check(bw is None or bw["#1"] < bo["#0"], "C17.R4", o, o.node, "objective = nll_attach + regularity_factor * nll_regul_ind_sum, read after the point was written",
+                  "the objective value is read before the candidate point is written into the state: the optimiser sees the value of the previous point", construct="objective value")
+    elif "'nll_attach'" in os_ and "'nll_regul_ind_sum'" in os_:
+        ctx.unknown("C17.R4", o, o.node, "the objective is neither the confirmed form nor lacks an essential part: cannot decide statically", construct="objective value")
+    else:
+        ctx.violation("C17.R4", o, o.node, "the objective is no longer the attachment plus the (weighted) individual regularity: the optimiser minimises something else than the posterior", construct="objective value")
     p = ix.func(SC, "ScipyMinimizeAlgorithm._get_individual_parameters_patient", "C17.R4")
     cp = Canon(p.node)
-    prets = cp.returns()
-    MIN = "minimize($0.obj_with_jac if $k1 else $0.obj_no_jac, jac=$k1, x0=$k0.scaling({%0: $1.get_tensor_value(%0)[0] for %0 in $1.dag.individual_variable_names}), args=($1, $k0), **$0.scipy_minimize_params)"
-    txt = prets[0] if prets else ""
-    ctx.form("C17.R4", p, p.node, txt, {f"($k0.unscaling({MIN}.x), $0.obj_no_jac({MIN}.x, $1, $k0))"}, ["$k0.unscaling(", "x0=$k0.scaling(", "args=($1, $k0)"],
-             "start = scaled current individual values of this state; result = unscaled optimiser output for the same state and scaling",
-             "the optimisation is not started from / evaluated on / mapped back with this subject's state and scaling", construct="start and returned point")
+    pl = cp.lines(True, True)
+    START = "{?n: $1.get_tensor_value(?n)[0] for ?n in $1.dag.individual_variable_names}"
+    ok = unify(pl, [f"?res = minimize($0.obj_with_jac if $k1 else $0.obj_no_jac, jac=$k1, x0=$k0.scaling({START}), args=($1, $k0), **$0.scipy_minimize_params)",
+                    "?ip = $k0.unscaling(?res.x)", "?loss = $0.obj_no_jac(?res.x, $1, $k0)", "return (?ip, ?loss)"]) is not None
+    ps = " ".join(pl)
+    if ok:
+        ctx.ok("C17.R4", p, p.node, "start = scaled current individual values of this state; result = unscaled optimiser output for the same state and scaling", construct="start and returned point")
+    elif all(t in ps for t in ("$k0.unscaling(", "x0=$k0.scaling(", "args=($1, $k0)")):
+        ctx.unknown("C17.R4", p, p.node, "the optimiser call is neither the confirmed form nor lacks an essential part: cannot decide statically", construct="start and returned point")
+    else:
+        ctx.violation("C17.R4", p, p.node, "the optimisation is not started from / evaluated on / mapped back with this subject's state and scaling", construct="start and returned point")
     # scaling / unscaling inverse affine maps
     un = ix.func(SC, "_AffineScalings1D.unscaling", "C17.R4")
     sc = ix.func(SC, "_AffineScalings1D.scaling", "C17.R4")
